@@ -23,3 +23,6 @@ func VerifNumCollectors[A p2p.Addr, Pub any](s *Swarm[A, Pub]) int {
 }
 
 func VerifSetDisableFastPath(v bool) { disableFastPath = v }
+
+// VerifExtractErrorCode exposes the mapping from a handler's return value to (error code, body length).
+func VerifExtractErrorCode(n int) (uint8, int) { return extractErrorCode(n) }
